@@ -158,6 +158,40 @@ PROPS["C07"] = bits_entry(
     "non-trivial = operands differ and agree on their most significant byte, or are equal",
     lambda e: len(e["a"]) >= 2 and (e["a"][0]["v"] == e["a"][1]["v"] or e["a"][0]["v"][-1] == e["a"][1]["v"][-1]))
 
+def conv_entry(rule, nontrivial, **kw):
+    d = {"bin": "conv", "modes": {"quick": ["debug"], "thorough": ["debug", "release"]}, "prims": False,
+         "rule": rule, "nontrivial": nontrivial, "mc": {"quick": [], "thorough": []}}
+    d.update(kw)
+    return d
+
+
+def first_int(e):
+    for a in e["a"]:
+        if a["t"] == "i" and a["v"]:
+            return to_int(a)
+    return 0
+
+
+PROPS["C09"] = conv_entry(
+    "one case = (source type, target type, source value) for As::as_ and CastFrom::cast_from over all 1156 ordered pairs of 34 bnum types (every digit-size ratio in both directions, widths 8..192 incl. 24/40/72/136/144/160), "
+    "each of 76 matrix types x 12 primitive integers in both directions, bool and char sources, plus cast_signed/cast_unsigned/to_bits/from_bits/as_bits; "
+    "values: source boundary values, the target's MIN/MAX and neighbours embedded in the source, sign-extension patterns, random; "
+    "non-trivial = the cast changes the width and the value is negative or does not fit the target",
+    lambda e: e["op"] == "as" and e["a"][1]["w"] != e["a"][0]["w"] and (first_int(e) < 0 or first_int(e) >= (1 << (e["a"][1]["w"] - 1))),
+    prims=False)
+PROPS["C13"] = conv_entry(
+    "one case = (source type, target type, value): BTryFrom over 1156 bnum pairs, TryFrom<bnum> for all 12 primitives, From/TryFrom<primitive|bool|char> into bnum types at least as wide, from_digits/From<[digit;N]>/Into<[digit;N]>/digits_mut/from_digit; "
+    "values: target MIN-1, MIN, MIN+1, MAX-1, MAX, MAX+1 embedded in the source, boundary, random; non-trivial = the value lies within 1 of a bound of the target type, or is rejected",
+    lambda e: any(o.get("k") == "err" for o in e["fo"].values()) or (e["op"] == "btryfrom" and abs(abs(first_int(e)) - (1 << (e["a"][1]["w"] - (1 if e["a"][1]["s"] else 0)))) <= 1))
+PROPS["C15"] = conv_entry(
+    "one case = (from_be_slice|from_le_slice, type, byte string) for every length 0..2*BYTES+2 (exhaustive over the byte alphabet {00,01,7f,80,ff} for BYTES <= 2; elsewhere value part random/extreme, excess part pure zero/sign padding with seeded impurities and sign-bit agreement/disagreement), "
+    "and (to_be|to_le|from_be|from_le, type, value); non-trivial = slice length differs from BYTES and is not a multiple of 8 bytes, or the slice is rejected",
+    lambda e: (e["op"].endswith("slice") and (len(e["a"][0]["v"]) != e["w"] // 8)) or any_flag(e))
+PROPS["C16"] = conv_entry(
+    "constants of every matrix type (BITS, BYTES, MIN, MAX, ZERO, ONE..TEN, NEG_ONE..NEG_TEN, Default) and the seven alias pairs; cross-digit-type casts at equal width; "
+    "digit-type independence is judged on every event of every property (one outcome group per call); non-trivial = constant other than ZERO",
+    lambda e: True)
+
 KNOWN_PREDICATES = {}
 
 
